@@ -31,7 +31,7 @@ TEXT = {
        "actually observed for all twelve. The unsafe paths also run under Miri (quick) and ASan/valgrind/big-endian Miri (thorough).",
   note="Twin<P> forwards to P with TYPE_INFO = Unknown; path detection is by request sizes at the public Output/Input boundary."),
  "C08": dict(
-  technique="runtime monitoring: differential against the slice run across input stacks built from the real wrappers (erased with a forwarding shim)",
+  technique="runtime monitoring: differential against the slice run across input stacks built from the real wrappers (erased with a forwarding shim); coverage-guided libFuzzer inputs judged by the same per-input oracle",
   text="Each byte string is decoded from the slice and from input stacks built out of the crate's own IoReader, CountedInput, depth-limit and mem-limit wrappers (all 40 "
        "wrapper words of length <= 3 appear over a run), an unknown-length input, a short-chunk reader and decode_from_bytes; accept/reject, value and consumed bytes must agree. "
        "The zero-copy Bytes path is observed directly (decoded buffer points into the source).",
@@ -43,17 +43,17 @@ TEXT = {
        "the sanitizers must stay silent. Fault enumeration is the right level: the fault space per input is finite and fully enumerated, the inputs are chosen.",
   note="Ledger keeps ids, not addresses (does not hide leaks from LSan); leaks of the crate's own raw allocations are visible only to Miri/LSan/valgrind shards."),
  "C14": dict(
-  technique="runtime monitoring: direct oracle on prefixes, concatenations and consume-all entry points over generated values and hostile strings",
+  technique="runtime monitoring: direct oracle on prefixes, concatenations and consume-all entry points over generated values and hostile strings; coverage-guided libFuzzer inputs judged by the same per-input oracle",
   text="All strict prefixes of real encodings must fail (slice and IoReader inputs), concatenations of mixed-type encodings must decode value by value leaving nothing, and "
        "decode_all / decode_all_with_depth_limit(MAX) must equal 'decode succeeded and input empty' on arbitrary strings.",
   note="Prefix sampling beyond 512 bytes; types with possibly-empty element encodings are left out of concatenations (their decode is still self-delimiting, covered in (1))."),
  "C18": dict(
-  technique="runtime monitoring: direct oracle for DecodeLength and differential skip vs decode with spy input positions",
+  technique="runtime monitoring: direct oracle for DecodeLength and differential skip vs decode with spy input positions; coverage-guided libFuzzer inputs judged by the same per-input oracle",
   text="len() on real encodings is compared with the logical length for every type that offers it (found by a compile-time probe, so new impls are picked up) through all "
        "count widths, and skip is compared with decode (success and position) on valid and hostile strings of every decodable type.",
   note="Counts >= 2^30 only through zero-sized elements."),
  "C19": dict(
-  technique="runtime monitoring: online step checker above CountedInput compared with an independent spy below it; saturation via guarded hook",
+  technique="runtime monitoring: online step checker above CountedInput compared with an independent spy below it; saturation via guarded hook; coverage-guided libFuzzer inputs judged by the same per-input oracle",
   text="A checker layered above the counting input recomputes the expected count from the outcomes of the requests it forwards and compares after every single request; "
        "the spy below reports what was really delivered. Failures are injected in the inner input, and the counter is started near u64::MAX through the hook to observe saturation.",
   note="Hook: CountedInput::verif_with_count behind --cfg psc_verif."),
@@ -64,13 +64,13 @@ TEXT = {
        "bytes is checked as well. One genuine defect is recorded as a known finding (containers of elements with empty encodings).",
   note="Children are single-threaded; requests above 8 GiB are refused so that 'allocate by claimed count' ends in an attributable abort."),
  "C11": dict(
-  technique="runtime monitoring: two-sided threshold oracle from a model-computed container depth, monotonicity and transparency sweeps over every limit, spy depth traces, deep-input survival on a small stack in a child process",
+  technique="runtime monitoring: two-sided threshold oracle from a model-computed container depth, monotonicity and transparency sweeps over every limit, spy depth traces, deep-input survival on a small stack in a child process; coverage-guided libFuzzer inputs judged by the same per-input oracle",
   text="For each value every limit 0..=depth+2 is executed natively and through wrapper layers: results must equal the unlimited result or fail, be monotone, succeed from "
        "depth_hi on and fail below depth_lo; descend/ascend traces must balance. Million-level nestings of recursive types are decoded with small limits on a 2 MiB stack: "
        "the child must survive and report an error.",
   note="Reading of 'recurses through more than L levels' is the one under which the crate's own documented test holds (see assumptions in the evidence)."),
  "C12": dict(
-  technique="runtime monitoring with fault injection: exhaustive limit sweep (every limit up to U+1) against the measured tracked usage, hook conservation via spy, payload lower bound from the bridge",
+  technique="runtime monitoring with fault injection: exhaustive limit sweep (every limit up to U+1) against the measured tracked usage, hook conservation via spy, payload lower bound from the bridge; coverage-guided libFuzzer inputs judged by the same per-input oracle",
   text="The limit is the injected fault: for every value with U <= 4096 each L in 0..=U+1 is executed (success iff L > U, result identical to unlimited decoding), larger "
        "values at boundary limits; U must equal the sum of announced allocations, be 0 for heap-free values and at least the logical heap payload (half of it for trees). "
        "Fault enumeration: per value the limit space is swept completely.",
